@@ -37,8 +37,11 @@ REPO = Path(os.environ.get("LCC_REPO", "/repo"))
 # /repo; an explicit LCC_REPO — e.g. a scratch worktree carrying a candidate patch — takes precedence)
 if str(REPO) not in sys.path:
     sys.path.insert(0, str(REPO))
-EVIDENCE_DIR = VERIF / "evidence"
-REPLAY_DIR = VERIF / "replays"
+# LCC_VERIF_OUT: where evidence/ and replays/ go (tools/run_seeded.py points it away from the committed evidence so
+# that a run against a mutated scratch tree never overwrites evidence obtained from /repo)
+_OUT = Path(os.environ["LCC_VERIF_OUT"]) if os.environ.get("LCC_VERIF_OUT") else VERIF
+EVIDENCE_DIR = _OUT / "evidence"
+REPLAY_DIR = _OUT / "replays"
 KNOWN_FINDINGS = VERIF / "known_findings.json"
 HOOK_GUARD = "LCC_VERIF"
 
